@@ -54,6 +54,15 @@ def run(ck):
                 progs.append({"driver": "threads", "tid": tids(), "arrays": {"A": a, "B": b},
                               "groups": {"A": [[0, 1]], "B": [[1, 2]]}, "prog": PROGS[pname], "maxsize": size if size != 9 else 8192,
                               "sched": [list(x) for x in sc]})
+    # larger instances of the protocol, explored under a VIEW that hides the schedule history (invariants only)
+    VCFG = ("SPECIFICATION Spec\nCONSTANTS\n  Threads = {threads}\n  Prog <- {prog}\n  MaxSize = {size}\n  PopGuarded = TRUE\nVIEW NoHistory\n"
+            "INVARIANT NoUncaughtError\nINVARIANT ReturnsOwnPlan\nINVARIANT SizeBoundRestored\nINVARIANT NoDuplicateKeys\nCHECK_DEADLOCK FALSE\n")
+    big = [("ProgC", "{1, 2, 3, 4}"), ("ProgD", "{1, 2, 3}")] + ([] if q else [("ProgE", "{1, 2, 3, 4}"), ("ProgF", "{1, 2, 3, 4, 5}")])
+    for pname, threads in big:
+        for size in ((1, 2) if q else (0, 1, 2, 3, 9)):
+            cfg = os.path.join(ck.scratch, f"MC_CacheV_{pname}_{size}.cfg")
+            open(cfg, "w").write(VCFG.format(threads=threads, prog=pname, size=size))
+            ck.model("MC_CacheI.tla", cfg, workers=runner.NCPU, timeout=3000)
     ck.cov["schedules_enumerated_by_tlc"] = nsched
     ck.cov["rule"] = ("(a) TLC explores every interleaving of the five dict operations of the cache protocol for 2 threads x 2 calls "
                       "and 3 threads x 1 call at cache sizes 0/1/2/large; every complete schedule (quick: 60 per instance) is forced "
